@@ -32,9 +32,31 @@ struct Triple {
 
 /// One run in the current thread: transcript lines (+ a final `#meta` line).
 fn run_once(t: &Triple) -> Result<Vec<String>, String> {
+    run_once_opt(t, true)
+}
+
+/// Lines that report the thread's accumulated BUGGIFY statistics: not compared for the dirty
+/// run, which deliberately does not reset them (so that code keyed on "has anything run here
+/// before" sees a thread with history).
+fn mask_ambient_stats(lines: &[String]) -> Vec<String> {
+    lines
+        .iter()
+        .map(|l| {
+            if key_of(l).starts_with("result.buggify_stats") {
+                format!("{} = <thread-wide statistics>", key_of(l))
+            } else {
+                l.clone()
+            }
+        })
+        .collect()
+}
+
+fn run_once_opt(t: &Triple, reset_stats: bool) -> Result<Vec<String>, String> {
     // BUGGIFY statistics are thread-local and only ever reset by the caller (as the tree's own
     // run_redis_dst_batch does before every simulation)
-    redis_sim::buggify::reset_stats();
+    if reset_stats {
+        redis_sim::buggify::reset_stats();
+    }
     match catch(|| run_harness(&t.harness, t.seed, &t.preset, t.n)) {
         Ok(Ok(tr)) => {
             let mut lines = tr.lines;
@@ -74,7 +96,8 @@ fn child_main(rest: &[String]) -> ! {
         .spawn(move || {
             if let Some(c) = dirty_ctx {
                 // the same run, on a thread where other simulations lived and live
-                return dirty::with_dirty_context(&c, &t.harness, &t.preset, t.seed, || run_once(&t));
+                return dirty::with_dirty_context(&c, &t.harness, &t.preset, t.seed, || run_once_opt(&t, false))
+                    .map(|l| mask_ambient_stats(&l));
             }
             let mut lines = run_once(&t)?;
             if pair {
@@ -426,34 +449,36 @@ fn check_triple(t: &Triple, ctx: &mut CaseCtx<'_>) -> Result<(), String> {
         ctx.label(if faults == "None" { "faults:n/a" } else if faults == "Some(0)" { "faults:0" } else { "faults:>=1" });
     }
     let hashes = [transcript_hash(&p1), transcript_hash(&p2), transcript_hash(&c1), transcript_hash(&c2)];
-    if hashes.iter().all(|h| *h == hashes[0]) && p1 == p2 && p1 == c1 && p1 == c2 && p1 == d {
+    let p1m = mask_ambient_stats(&p1);
+    if hashes.iter().all(|h| *h == hashes[0]) && p1 == p2 && p1 == c1 && p1 == c2 && p1m == d {
         ctx.label("identical");
         return Ok(());
     }
     // earliest divergence from the first in-process run
-    let runs: [(&str, &Vec<String>); 4] = [
-        ("second in-process run", &p2),
-        ("child process 1", &c1),
-        ("child process 2", &c2),
-        ("the run in a dirty context (other simulations before/around it on the same thread)", &d),
+    // (name, run, the reference it is compared with)
+    let runs: [(&str, &Vec<String>, &Vec<String>); 4] = [
+        ("second in-process run", &p2, &p1),
+        ("child process 1", &c1, &p1),
+        ("child process 2", &c2, &p1),
+        ("the run in a dirty context (other simulations before/around it on the same thread)", &d, &p1m),
     ];
-    let mut best: Option<(usize, &str, &Vec<String>)> = None;
-    for (name, r) in runs.iter() {
-        if let Some(at) = first_diff(&p1, r) {
-            if best.map(|(b, _, _)| at < b).unwrap_or(true) {
-                best = Some((at, name, r));
+    let mut best: Option<(usize, &str, &Vec<String>, &Vec<String>)> = None;
+    for (name, r, reference) in runs.iter() {
+        if let Some(at) = first_diff(reference, r) {
+            if best.map(|(b, _, _, _)| at < b).unwrap_or(true) {
+                best = Some((at, name, r, reference));
             }
         }
     }
-    let (at, who, other) = match best {
+    let (at, who, other, p1) = match best {
         Some(b) => b,
         None => {
             // all equal to p1 (hash collision impossible here) — children differ among themselves only
             return Ok(());
         }
     };
-    let in_process = first_diff(&p1, &p2).is_some();
-    let only_dirty = p1 == p2 && p1 == c1 && p1 == c2;
+    let in_process = p2 != *runs[0].2;
+    let only_dirty = !in_process && c1 == *runs[1].2 && c2 == *runs[2].2;
     ctx.label(if only_dirty {
         "diverged:dirty-context-only"
     } else if in_process {
@@ -461,11 +486,11 @@ fn check_triple(t: &Triple, ctx: &mut CaseCtx<'_>) -> Result<(), String> {
     } else {
         "diverged:cross-process-only"
     });
-    if let Some(id) = classify(t, at, &p1, other) {
+    if let Some(id) = classify(t, at, p1, other) {
         // every differing run must show the same listed discrepancy
-        let all_match = runs.iter().all(|(_, r)| match first_diff(&p1, r) {
+        let all_match = runs.iter().all(|(_, r, reference)| match first_diff(reference, r) {
             None => true,
-            Some(a) => classify(t, a, &p1, r) == Some(id),
+            Some(a) => classify(t, a, reference, r) == Some(id),
         });
         if all_match && ctx.tolerate(id) {
             ctx.label(&format!("tolerated:{}", id));
